@@ -12,18 +12,18 @@ What is proved.
 constructor succeeds and reports the five columns unchanged.  The statement for every name is false
 (the empty name, open finding C07-19): `ViewRowsFull`, `TriggerRowsFull` with their witnesses.
 (2) `IndexRow`: a row whose SQL is `CREATE [UNIQUE] INDEX ` name gap ON gap table gap `(`…, with the two
-names in any of the four quoting styles or plain, ON in any capitalisation, gaps of any whitespace (runs,
-tabs, newlines), and a parenthesised column list the closing-parenthesis scanner gets through followed
-by nothing or by WHERE and anything, is accepted, flagged unique / not internal, and reported unchanged -
-provided the names are non-empty and have no run of blanks inside (C07-19, C07-13).  `IndexRowsFull`
-(gaps may also hold a comment) is false: a comment between the index name and ON, or between ON and the
-table name, rejects the database (new finding), as do a `--` comment ended by the end of the statement
-(new finding) and a "/" in an indexed expression (C07-09); each with its witness.
+names in any of the four quoting styles or plain, ON in any capitalisation, gaps of whitespace (runs, tabs,
+newlines) AND COMMENTS (block and line comments, any number: repair of C07-20), and a parenthesised column list
+the closing-parenthesis scanner gets through followed by a gap and then nothing, WHERE and anything, or a comment
+that only the end of the statement closes (repair of C07-21), is accepted, flagged unique / not internal, and
+reported unchanged - provided the names are non-empty (C07-19) and have no run of blanks inside.  `IndexRowsFull`
+(names with blank runs too) is still false: open finding C07-13, with its witness; so is a "/" in an indexed
+expression (C07-09).  The former witnesses of C07-20 and C07-21 are now theorems of acceptance.
 (3) internal schema objects: every `sqlite_autoindex_…` row without SQL is accepted and flagged; every other
 `sqlite_…` index name is refused.
-(4) `VirtualTableRow`: `CREATE VIRTUAL TABLE ` name gap USING gap module gap `(`…`)` is accepted and the module
-name is the one written, in any spelling.  `VirtualRowsFull` (the argument list may be absent, as for
-`USING dbstat`) is false (new finding).
+(4) `VirtualTableRow`: `CREATE VIRTUAL TABLE ` name gap USING gap module gap, then `(`…`)` or nothing (repair of
+C07-22: `USING dbstat`), gaps with comments, is accepted and the module name is the one written, in any spelling.
+`VirtualRowsFull` (names with blank runs) is still false (C07-13).
 (5) whenever a constructor succeeds, and whenever `MasterSchema.__init__` succeeds, the entries are the rows:
 tables, indexes, views, triggers, in that order, the five columns unchanged; rows of another type vanish.
 -/
@@ -87,9 +87,13 @@ normalises the beginning), the index name `Wi`, a gap, ON in any capitalisation,
 gap, and `R`, the text from the opening parenthesis of the indexed columns on.
 * `Written name Wi`: any spelling of the row's name - in `"…"`, `'…'` or back-ticks with the quote character
   doubled, in `[…]`, or plain (no whitespace, none of `( - / . [` and quote characters);
-* gaps: any whitespace at all (`str.isspace`), also runs of it; empty gaps are fine except after a plain index name;
+* `Gap`: whitespace of any kind (`str.isspace`, runs too) and any number of whole comments, `/*…*/` and
+  `--…<NL>`, in any order (SQLite stores the statement from the name token on, comments included; before the
+  repair of C07-20 a comment before or after ON rejected the database); an empty gap is fine except after a
+  plain index name;
 * `IndexColsOk (collapse isBlank R)`: on the column list as it stands after the whitespace collapse the
-  closing-parenthesis scanner returns, and what follows is nothing or WHERE (any capitalisation) and anything
+  closing-parenthesis scanner returns, and what follows is a gap and then nothing, WHERE (any capitalisation)
+  and anything, or a `--` / `/*` comment that nothing but the end of the statement closes (repair of C07-21)
   (`index_cols_balanced`, and C07's `closing_paren_balanced` / `closing_paren_comments`, give such lists);
 * the names are non-empty (C07-19), have no run of blanks inside (C07-13) and none of the 19 code points whose
   case mapping is not modelled; the index name does not begin with "sqlite_"; the table is an ordinary table
@@ -98,28 +102,33 @@ Then the row is accepted: the five columns unchanged, not internal, unique exact
 theorem index_rows_partial (u : Bool) (name tbl Wi Wt G1 G2 G3 R : Str) (o n : Char) (root : Option Int)
     (tables : Tables) (wr : Bool) (hname : name ≠ []) (htbl : tbl ≠ [])
     (hWi : Written name Wi) (hWt : Written tbl Wt) (hnb1 : noBlankRun name = true) (hnb2 : noBlankRun tbl = true)
-    (hG1 : Ws G1) (hG1ne : Wi = name → G1 ≠ []) (ho : upperC o = 'O') (hn : upperC n = 'N') (hG2 : Ws G2) (hG3 : Ws G3)
+    (hG1 : Gap G1) (hG1ne : Wi = name → G1 ≠ []) (ho : upperC o = 'O') (hn : upperC n = 'N') (hG2 : Gap G2) (hG3 : Gap G3)
     (hR : R.head? = some '(') (hcols : IndexColsOk (collapse isBlank R))
     (hm1 : InModel name) (hm2 : InModel tbl) (hm3 : InModel (indexSql u Wi G1 o n G2 Wt G3 R))
     (hint : sqlitePrefix.isPrefixOf name = false) (htab : tables.find tbl = some (some wr)) :
-    ∃ p, indexRow ⟨kIndex, name, tbl, root, some (indexSql u Wi G1 o n G2 Wt G3 R)⟩ tables =
+    ∃ p cs, indexRow ⟨kIndex, name, tbl, root, some (indexSql u Wi G1 o n G2 Wt G3 R)⟩ tables =
       .ok ⟨⟨kIndex, name, tbl, root, some (indexSql u Wi G1 o n G2 Wt G3 R)⟩,
-           sqlHasComments (some (indexSql u Wi G1 o n G2 Wt G3 R)), .index false u p []⟩ := by
+           sqlHasComments (some (indexSql u Wi G1 o n G2 Wt G3 R)), .index false u p cs⟩ := by
   exact Proofs.C07Rows.indexRow_shape u name tbl Wi Wt G1 G2 G3 R o n root tables wr hname htbl hWi hWt hnb1 hnb2
     hG1 hG1ne ho hn hG2 hG3 hR hcols hm1 hm2 hm3 hint htab
 
 /-- The exact form underneath: on the command as it stands after the whitespace collapse (`sql_command`)
 nothing is asked of the names - any name, with blank runs, with "/" or "--" inside, even empty. -/
 theorem index_command_exact (u : Bool) (name tbl Wi Wt G1 G2 G3 R : Str) (o n : Char)
-    (hWi : Written name Wi) (hWt : Written tbl Wt) (hG1 : Ws G1) (hG1ne : Wi = name → G1 ≠ [])
-    (ho : upperC o = 'O') (hn : upperC n = 'N') (hG2 : Ws G2) (hG3 : Ws G3) (hR : IndexColsOk R) :
-    ∃ p, indexCmd name tbl (indexSql u Wi G1 o n G2 Wt G3 R) = .ok (u, p, []) := by
+    (hWi : Written name Wi) (hWt : Written tbl Wt) (hG1 : Gap G1) (hG1ne : Wi = name → G1 ≠ [])
+    (ho : upperC o = 'O') (hn : upperC n = 'N') (hG2 : Gap G2) (hG3 : Gap G3) (hR : IndexColsOk R) :
+    ∃ p cs, indexCmd name tbl (indexSql u Wi G1 o n G2 Wt G3 R) = .ok (u, p, cs) := by
   exact Proofs.C07Rows.indexCmd_shape u name tbl Wi Wt G1 G2 G3 R o n hWi hWt hG1 hG1ne ho hn hG2 hG3 hR
 
+/-- The whitespace collapse turns a gap into a gap (a comment stays one comment: no `*/` and no newline
+appears inside it), so the gaps may be given as they stand in the stored text. -/
+theorem collapse_of_gap (g : Str) (hg : Gap g) : Gap (collapse isBlank g) := by
+  exact Proofs.C07Rows.collapse_gap g hg
+
 /-- A column list without quotes and comments (parentheses nest; none of `- / ' " [` and back-tick) and
-without blank runs, followed by nothing or by whitespace and WHERE…, satisfies `IndexColsOk`. -/
+without blank runs, followed by an `IndexTailOk` (a gap, then nothing / WHERE… / an unclosed comment), satisfies `IndexColsOk`. -/
 theorem index_cols_balanced (body tail : Str) (hb : balance 0 body = some 0)
-    (hnb : noBlankRun ('(' :: body ++ ')' :: tail) = true) (ht : IndexTailOk (lstrip tail)) :
+    (hnb : noBlankRun ('(' :: body ++ ')' :: tail) = true) (ht : IndexTailOk tail) :
     IndexColsOk (collapse isBlank ('(' :: body ++ ')' :: tail)) := by
   exact Proofs.C07Rows.indexColsOk_balanced body tail hb hnb ht
 
@@ -146,17 +155,33 @@ example :
       some ⟨⟨kIndex, exName, exTbl, some 5, some sqlExIndex⟩, true, .index false true true []⟩ := by
   refine ⟨by decide +kernel, by decide, by decide, rfl, by decide +kernel, by decide +kernel, by decide +kernel⟩
 
-example : Written exName (quoteName '"' exName) ∧ Written exTbl ('[' :: exTbl ++ [']']) ∧ Ws exG1 ∧ Ws ['\t'] ∧
+example : Written exName (quoteName '"' exName) ∧ Written exTbl ('[' :: exTbl ++ [']']) ∧ Gap exG1 ∧ Gap ['\t'] ∧
     upperC 'n' = 'N' ∧ InModel sqlExIndex :=
-  ⟨.quoted '"' rfl, .bracket (by decide), by unfold Ws; decide, by unfold Ws; decide, by decide, by unfold InModel; decide +kernel⟩
+  ⟨.quoted '"' rfl, .bracket (by decide), .ws _ (by unfold Ws; decide), .ws _ (by unfold Ws; decide), by decide,
+   by unfold InModel; decide +kernel⟩
+
+/-- non-vacuity with comments in every gap: `CREATE INDEX i/* a  b */<NL>-- c<NL> ON/**/t -- d<NL> (a) /* e */ -- f`
+(a blank run inside a comment, a line comment, an empty comment, a trailing `--` comment without newline);
+the gap before ON as a `Gap`, and the constructor's answer with the six comments (the first one collapsed) -/
+example :
+    Gap ['/', '*', ' ', 'a', ' ', ' ', 'b', ' ', '*', '/', '\n', '-', '-', ' ', 'c', '\n', ' '] ∧
+    (indexRow ⟨kIndex, ['i'], ['t'], some 3, some sqlExGaps⟩ tablesT).toOption =
+      some ⟨⟨kIndex, ['i'], ['t'], some 3, some sqlExGaps⟩, true,
+        .index false false false [['/', '*', ' ', 'a', ' ', 'b', ' ', '*', '/'], ['-', '-', ' ', 'c'], ['/', '*', '*', '/'],
+          ['-', '-', ' ', 'd'], ['/', '*', ' ', 'e', ' ', '*', '/'], ['-', '-', ' ', 'f']]⟩ := by
+  refine ⟨?_, by decide +kernel⟩
+  exact .block [] [' ', 'a', ' ', ' ', 'b', ' '] _ (by intro c hc; cases hc) (by decide +kernel)
+    (.line ['\n'] [' ', 'c'] _ (by unfold Ws; decide) (by decide) (.ws _ (by unfold Ws; decide)))
 
 example : balance 0 ['a', ',', ' ', 'l', 'o', 'w', 'e', 'r', '(', 'b', ')'] = some 0 ∧
-    IndexTailOk (lstrip [' ', 'W', 'h', 'e', 'r', 'e', ' ', 'a']) := ⟨by decide +kernel, Or.inr (by decide +kernel)⟩
+    IndexTailOk ([' '] ++ ['W', 'h', 'e', 'r', 'e', ' ', 'a']) ∧ IndexTailOk ([' '] ++ ['-', '-', ' ', 'c']) :=
+  ⟨by decide +kernel, ⟨[' '], _, .ws _ (by unfold Ws; decide), .whereClause _ (by decide +kernel), rfl⟩,
+   ⟨[' '], _, .ws _ (by unfold Ws; decide), .openLine _ (by decide), rfl⟩⟩
 
-/-- The statement with a comment allowed in a gap (SQLite stores the text from the name token on, comments
-included) -/
+/-- The statement for every non-empty name (SQLite accepts any text inside quotes) -/
 def IndexRowsFull : Prop :=
   ∀ (u : Bool) (name tbl Wi Wt G1 G2 G3 R : Str) (o n : Char) (root : Option Int) (tables : Tables) (wr : Bool),
+    name ≠ [] → tbl ≠ [] →
     Written name Wi → Written tbl Wt → Gap G1 → (Wi = name → G1 ≠ []) → upperC o = 'O' → upperC n = 'N' → Gap G2 → Gap G3 →
     R.head? = some '(' → IndexColsOk (collapse isBlank R) →
     InModel name → InModel tbl → InModel (indexSql u Wi G1 o n G2 Wt G3 R) →
@@ -165,27 +190,38 @@ def IndexRowsFull : Prop :=
       .ok ⟨⟨kIndex, name, tbl, root, some (indexSql u Wi G1 o n G2 Wt G3 R)⟩,
            sqlHasComments (some (indexSql u Wi G1 o n G2 Wt G3 R)), .index false u p cs⟩
 
-/-- witness (new finding): `CREATE INDEX i /* c */ ON t (a)` - "does not have a ON clause" -/
+/-- witness (open finding C07-13 on an index): `CREATE INDEX "i  x" ON t (a)` - the whitespace collapse rewrites
+the quoted name, which then differs from the name column -/
 theorem index_rows_full_false : ¬ IndexRowsFull := by
   exact Proofs.C07Rows.indexRowsFull_false
 
-/-- The witnesses one by one, each a text SQLite 3.40.1 stores in sqlite_schema (replayed on the real code by
-the harness on every run): a comment before ON, -/
-theorem index_comment_before_on_rejected :
-    errorOf (indexRow ⟨kIndex, ['i'], ['t'], some 3, some sqlCommentBeforeOn⟩ tablesT) = some .parseError := by
+/-- The former witnesses of C07-20 and C07-21, each a text SQLite 3.40.1 stores in sqlite_schema (replayed on the
+real code by the harness on every run), are accepted now, the comment kept in `comments`:
+`CREATE INDEX i /* c */ ON t (a)`, -/
+theorem index_comment_before_on_accepted :
+    (indexRow ⟨kIndex, ['i'], ['t'], some 3, some sqlCommentBeforeOn⟩ tablesT).toOption =
+      some ⟨⟨kIndex, ['i'], ['t'], some 3, some sqlCommentBeforeOn⟩, true, .index false false false [['/', '*', ' ', 'c', ' ', '*', '/']]⟩ := by
   exact Proofs.C07Rows.witness_comment_before_on
 
-/-- a comment after ON: `CREATE INDEX i ON /* c */ t (a)`, -/
-theorem index_comment_after_on_rejected :
-    errorOf (indexRow ⟨kIndex, ['i'], ['t'], some 3, some sqlCommentAfterOn⟩ tablesT) = some .parseError := by
+/-- `CREATE INDEX i ON /* c */ t (a)`, -/
+theorem index_comment_after_on_accepted :
+    (indexRow ⟨kIndex, ['i'], ['t'], some 3, some sqlCommentAfterOn⟩ tablesT).toOption =
+      some ⟨⟨kIndex, ['i'], ['t'], some 3, some sqlCommentAfterOn⟩, true, .index false false false [['/', '*', ' ', 'c', ' ', '*', '/']]⟩ := by
   exact Proofs.C07Rows.witness_comment_after_on
 
-/-- a `--` comment that runs to the end of the statement: `CREATE INDEX i ON t (a) -- c` (ValueError), -/
-theorem index_trailing_line_comment_rejected :
-    errorOf (indexRow ⟨kIndex, ['i'], ['t'], some 3, some sqlTrailingLineComment⟩ tablesT) = some .valueError := by
+/-- `CREATE INDEX i ON t (a) -- c` (no newline), -/
+theorem index_trailing_line_comment_accepted :
+    (indexRow ⟨kIndex, ['i'], ['t'], some 3, some sqlTrailingLineComment⟩ tablesT).toOption =
+      some ⟨⟨kIndex, ['i'], ['t'], some 3, some sqlTrailingLineComment⟩, true, .index false false false [['-', '-', ' ', 'c']]⟩ := by
   exact Proofs.C07Rows.witness_trailing_line_comment
 
-/-- a "/" in an indexed expression: `CREATE INDEX i ON t (a/2)` (C07-09), -/
+/-- `CREATE INDEX i ON t (a) /* c` (never closed). -/
+theorem index_trailing_block_comment_accepted :
+    (indexRow ⟨kIndex, ['i'], ['t'], some 3, some sqlTrailingBlockComment⟩ tablesT).toOption =
+      some ⟨⟨kIndex, ['i'], ['t'], some 3, some sqlTrailingBlockComment⟩, true, .index false false false [['/', '*', ' ', 'c']]⟩ := by
+  exact Proofs.C07Rows.witness_trailing_block_comment
+
+/-- What is still refused, each a text SQLite stores: a "/" in an indexed expression, `CREATE INDEX i ON t (a/2)` (C07-09), -/
 theorem index_slash_expression_rejected :
     errorOf (indexRow ⟨kIndex, ['i'], ['t'], some 3, some sqlSlashExpr⟩ tablesT) = some .parseError := by
   exact Proofs.C07Rows.witness_slash_expression
@@ -232,40 +268,42 @@ example : sqlitePrefix.isPrefixOf (sqlitePrefix ++ ['x']) = true ∧ autoindexPr
 /-! ### Virtual table rows -/
 
 /-- `VirtualTableRow.__init__` on `CREATE VIRTUAL TABLE ` name gap USING gap module gap `R`: the table name and the
-module name in any spelling (`Written`), USING in any capitalisation, gaps of any whitespace, `R` the
-parenthesised module arguments - quotes, commas, nested parentheses, comments inside, as long as the
-closing-parenthesis scanner gets through them after the whitespace collapse and only whitespace follows.
+module name in any spelling (`Written`), USING in any capitalisation, gaps of whitespace and comments, `R` either
+nothing at all (the argument list is optional in SQLite: `USING dbstat`; repair of C07-22) or the parenthesised
+module arguments - quotes, commas, nested parentheses, comments inside, as long as the closing-parenthesis
+scanner gets through them after the whitespace collapse and only whitespace follows.
 Accepted, the five columns unchanged, and `module_name` is the module. -/
 theorem virtual_rows_partial (name m Wn Wm G1 U G2 G3 R : Str) (root : Option Int) (hname : name ≠ [])
     (hWn : Written name Wn) (hWm : Written m Wm) (hnb1 : noBlankRun name = true) (hnb2 : noBlankRun m = true)
-    (hG1 : Ws G1) (hG1ne : Wn = name → G1 ≠ []) (hU : upper U = kUSING) (hG2 : Ws G2) (hG3 : Ws G3)
-    (hR : R.head? = some '(') (hargs : ModuleArgsOk (collapse isBlank R))
+    (hG1 : Gap G1) (hG1ne : Wn = name → G1 ≠ []) (hU : upper U = kUSING) (hG2 : Gap G2) (hG3 : Gap G3)
+    (hR : R = [] ∨ (R.head? = some '(' ∧ ModuleArgsOk (collapse isBlank R)))
     (hm1 : InModel name) (hm3 : InModel (virtualSql Wn G1 U G2 Wm G3 R))
     (hint : sqlitePrefix.isPrefixOf name = false) :
-    virtualRow ⟨kTable, name, name, root, some (virtualSql Wn G1 U G2 Wm G3 R)⟩ =
+    ∃ cs, virtualRow ⟨kTable, name, name, root, some (virtualSql Wn G1 U G2 Wm G3 R)⟩ =
       .ok ⟨⟨kTable, name, name, root, some (virtualSql Wn G1 U G2 Wm G3 R)⟩,
-           sqlHasComments (some (virtualSql Wn G1 U G2 Wm G3 R)), .virtualTable m []⟩ := by
+           sqlHasComments (some (virtualSql Wn G1 U G2 Wm G3 R)), .virtualTable m cs⟩ := by
   exact Proofs.C07Rows.virtualRow_shape name m Wn Wm G1 U G2 G3 R root hname hWn hWm hnb1 hnb2 hG1 hG1ne hU hG2 hG3
-    hR hargs hm1 hm3 hint
+    hR hm1 hm3 hint
 
-/-- The statement with the argument list optional, as in SQLite's grammar -/
+/-- The statement for every non-empty table and module name -/
 def VirtualRowsFull : Prop :=
   ∀ (name m Wn Wm G1 U G2 G3 R : Str) (root : Option Int), name ≠ [] →
-    Written name Wn → Written m Wm → noBlankRun name = true → noBlankRun m = true →
-    Ws G1 → (Wn = name → G1 ≠ []) → upper U = kUSING → Ws G2 → Ws G3 →
+    Written name Wn → Written m Wm →
+    Gap G1 → (Wn = name → G1 ≠ []) → upper U = kUSING → Gap G2 → Gap G3 →
     (R = [] ∨ (R.head? = some '(' ∧ ModuleArgsOk (collapse isBlank R))) →
     InModel name → InModel (virtualSql Wn G1 U G2 Wm G3 R) → sqlitePrefix.isPrefixOf name = false →
-    virtualRow ⟨kTable, name, name, root, some (virtualSql Wn G1 U G2 Wm G3 R)⟩ =
+    ∃ cs, virtualRow ⟨kTable, name, name, root, some (virtualSql Wn G1 U G2 Wm G3 R)⟩ =
       .ok ⟨⟨kTable, name, name, root, some (virtualSql Wn G1 U G2 Wm G3 R)⟩,
-           sqlHasComments (some (virtualSql Wn G1 U G2 Wm G3 R)), .virtualTable m []⟩
+           sqlHasComments (some (virtualSql Wn G1 U G2 Wm G3 R)), .virtualTable m cs⟩
 
-/-- witness (new finding): `CREATE VIRTUAL TABLE v USING dbstat` - the module name reader finds no end of the
-name ("No table name found"), MasterSchemaRowParsingError -/
+/-- witness (open finding C07-13 on a virtual table): `CREATE VIRTUAL TABLE "v  w" USING fts5(x)` -/
 theorem virtual_rows_full_false : ¬ VirtualRowsFull := by
   exact Proofs.C07Rows.virtualRowsFull_false
 
-theorem virtual_no_arguments_rejected :
-    errorOf (virtualRow ⟨kTable, ['v'], ['v'], some 0, some sqlNoArgs⟩) = some .parseError := by
+/-- The former witness of C07-22, `CREATE VIRTUAL TABLE v USING dbstat`, is accepted and the module found. -/
+theorem virtual_no_arguments_accepted :
+    (virtualRow ⟨kTable, ['v'], ['v'], some 0, some sqlNoArgs⟩).toOption =
+      some ⟨⟨kTable, ['v'], ['v'], some 0, some sqlNoArgs⟩, true, .virtualTable ['d', 'b', 's', 't', 'a', 't'] []⟩ := by
   exact Proofs.C07Rows.witness_no_module_arguments
 
 def exVName : Str := ['v', ' ', 'w']
